@@ -25,7 +25,7 @@ ASSUMPTIONS = ['shadow numpy interpreter (vlib/evgen.py) is the reference; it is
                'termination is a bounded-progress claim: <= 5e4 rewrite steps / 5e7 executed lines on generator-sized DAGs',
                'float comparison bands 1e-9 (pass) / 1e-5 (violation) relative to the largest intermediate magnitude']
 BUDGET_S = {'quick': 110, 'thorough': 1500}
-NCASES = {'quick': 7000, 'thorough': 160000}
+NCASES = {'quick': 5000, 'thorough': 160000}
 NASSIGN = {'quick': 2, 'thorough': 3}
 CHUNK = 50
 WALL_NOMINATE_S = 8
@@ -33,7 +33,8 @@ LINE_BUDGET = 3 * 10**7
 
 
 def plan(tier, seed):
-    n = NCASES[tier]
+    from vlib.runner import scaled
+    n = scaled(NCASES[tier])
     units = [dict(kind='random', start=i, stop=min(n, i + CHUNK)) for i in range(0, n, CHUNK)]
     ops = evgen.CHAINABLE
     pairs = [(a, b) for a in ops for b in ops]
@@ -49,7 +50,7 @@ def plan(tier, seed):
 
 def setup():
     import treelog
-    treelog.set(treelog.NullLog())
+    treelog.set(treelog.NullLog()).__enter__()
     evmon.install_step_counter()
     evmon.install_rule_counters()
     warnings.simplefilter('ignore')
@@ -59,11 +60,27 @@ def check_case(case, seed_key, res, tier, nassign=None, stepmon=False):
     """Run all C01 monitors on one case.  Violations are recorded in res."""
     from nutils import evaluable as ev
     res.count('evaluations')
+    evmon.reset_steps()
+    evmon.STEP_SAMPLING.update(p=0.)
     try:
-        built, outs = evgen.build(case)
+        with evmon.wall(WALL_NOMINATE_S * 4):
+            built, outs = evgen.build(case)
     except (AssertionError, ValueError, TypeError, IndexError) as e:
         res.count('rejected_constructions')
         res.add('rejected_kinds', f'{type(e).__name__}')
+        return
+    except (evmon.StepBudget, evmon.WallNominate, RecursionError, Exception) as e:
+        # constructors consult .simplified (iszero, equality tests): a divergent rewrite can surface here already
+        detail = f'{type(e).__name__}: {str(e)[:200]} (during construction) | hot rules: ' + ','.join(evmon.hot_rules())
+        if isinstance(e, evmon.WallNominate):
+            res.count('inconclusive_wall')
+            return
+        mode = 'step-budget' if isinstance(e, evmon.StepBudget) else 'exception'
+        if mode == 'exception' and not ('caught in a loop' in str(e) or isinstance(e, RecursionError)):
+            res.count('rejected_constructions')
+            res.add('rejected_kinds', f'{type(e).__name__}')
+            return
+        res.violation('simplification does not terminate normally: ' + mode, dict(case=case, desc=evgen.describe(case)), detail, mechanism=evfind.classify_c01(case, mode, detail))
         return
     rng = rng_for(*seed_key, 'args')
     # ---- termination monitor
@@ -82,9 +99,11 @@ def check_case(case, seed_key, res, tier, nassign=None, stepmon=False):
     except evmon.WallNominate:
         # nominate only; the logical line clock convicts
         res.count('wall_nominated')
-        status, r, lines = evmon.line_clock(lambda: tuple(o.simplified for o in evgen.build(case)[1]), LINE_BUDGET, wall_s=240)
+        status, r, lines = evmon.line_clock(lambda: tuple(o.simplified for o in evgen.build(case)[1]), LINE_BUDGET, wall_s=60)
         if status == 'budget':
             fail = ('line-budget', f'simplification still running after {lines} executed lines')
+        elif status == 'raised' and isinstance(r, evmon.StepBudget):
+            fail = ('step-budget', str(r))
         elif status == 'raised':
             fail = ('exception', f'{type(r).__name__}: {r}')
         elif status == 'wall':
@@ -285,7 +304,8 @@ def finalize(m, tier, seed):
                shadow_or_translation_suspect=c.get('shadow_or_translation_suspect', 0), original_fails_to_evaluate=c.get('original_fails_to_evaluate', 0),
                skipped_deadline=c.get('skipped_deadline', 0))
     inc = None
-    if cov['evaluations'] < 0.5 * NCASES[tier]:
+    from vlib.runner import scaled
+    if cov['evaluations'] < 0.5 * scaled(NCASES[tier]):
         inc = f"only {cov['evaluations']} cases ran before the deadline"
     elif cov['assignments'] < cov['evaluations'] * 0.5:
         inc = 'too few in-domain assignments'
